@@ -634,6 +634,10 @@ func (m *DenseReal32Matrix) Import(filename string) error {
       continue
     }
     fields := strings.Fields(l)
+    if len(fields) == 0 {
+      // line of blanks
+      continue
+    }
     if cols == 0 {
       cols = len(fields)
     }
